@@ -27,14 +27,18 @@ double vf_muldiv(int site, int isdiv, double a, double b);
 #define F_DIVL(s,a,b) ((a)/(b))
 #ifdef __CPROVER__
 /* contracts (documented IEEE/C99 Annex F facts only) */
+double __CPROVER_uninterpreted_remainder(double, double);
 static inline double vf_c_remainder(double x, double y) {
   if (isnan(x) || isnan(y) || isinf(x) || y == 0.0) return VF_NAN;
   if (isinf(y)) return x;
-  double ay = __builtin_fabs(y);
-  if (__builtin_fabs(x) <= ay / 2) return x;                 /* n = 0 (ties to even) */
-  double r = nondet_double();
+  double ay = __builtin_fabs(y), ax = __builtin_fabs(x);
+  if (ax <= ay / 2) return x;                                  /* n = 0 (ties to even) */
+  if (ax < ay + ay / 2) { double q = x > 0 ? x - ay : x + ay; return q == 0.0 ? vf_copysign(0.0, x) : q; }   /* n = +-1: exact by Sterbenz */
+  /* deterministic (a function of |x| and |y|) and odd in x, otherwise arbitrary within [-y/2, y/2] */
+  double r = __CPROVER_uninterpreted_remainder(ax, ay);
   __CPROVER_assume(!isnan(r) && r >= -ay / 2 && r <= ay / 2);
-  if (r == 0.0) r = vf_copysign(0.0, x);              /* zero result has the sign of x */
+  if (x < 0) r = -r;
+  if (r == 0.0) r = vf_copysign(0.0, x);                       /* zero result has the sign of x */
   return r;
 }
 static inline double vf_c_remquo(double x, double y, char* q) {
@@ -57,9 +61,11 @@ static inline double vf_c_atan2(double y, double x) {
   if (isinf(y) && !isinf(x)) return vf_copysign(pi / 2, y);
   if (isinf(x) && isinf(y)) return vf_copysign(x > 0 ? pi / 4 : 3 * pi / 4, y);
   if (x == y) return 0x1.921fb54442d18p-1;                     /* atan2(t,t), t>0 finite: correctly rounded pi/4 in glibc */
+  if (x == -y && x > 0) return -0x1.921fb54442d18p-1;
   double r = nondet_double();
   __CPROVER_assume(r >= -pi && r <= pi && r != 0.0 && (y > 0) == (r > 0));
   if (x > 0) __CPROVER_assume(r > -pi / 2 - 1e-300 && r <= pi / 2 && r >= -pi / 2); else __CPROVER_assume(r >= pi / 2 || r <= -pi / 2);
+  if (x > 0 && y <= x && y >= -x) __CPROVER_assume(r <= 0x1.921fb54442d18p-1 && r >= -0x1.921fb54442d18p-1);   /* first octants: |atan2| <= pi/4 (monotone) */
   return r;
 }
 static inline double vf_c_hypot(double x, double y) { if (isinf(x) || isinf(y)) return VF_INF; if (isnan(x) || isnan(y)) return VF_NAN; double r = nondet_double(); __CPROVER_assume(r >= 0.0); __CPROVER_assume(r >= __builtin_fabs(x) && r >= __builtin_fabs(y)); return r; }
